@@ -390,6 +390,15 @@ def duration_unit_rule(ctx: Ctx, rid: str, floor: int = 5):
             # letters only: a unit group
             n += 1
             handled = any(isinstance(x, ast.Constant) and x.value == "min" for x in own_nodes(fn))
+            if not handled:
+                # the cases may live in a module- or class-level table the function looks the unit up in
+                used = {x.id for x in own_nodes(fn) if isinstance(x, ast.Name)} | {x.attr for x in own_nodes(fn) if isinstance(x, ast.Attribute)}
+                for st in ast.walk(fn.module.tree):
+                    if isinstance(st, (ast.Assign, ast.AnnAssign)) and isinstance(getattr(st, "value", None), ast.Dict) \
+                            and isinstance(getattr(st, "_parent", None), (ast.Module, ast.ClassDef)):
+                        tg = st.targets[0] if isinstance(st, ast.Assign) else st.target
+                        if isinstance(tg, ast.Name) and tg.id in used and any(isinstance(k, ast.Constant) and k.value == "min" for k in st.value.keys):
+                            handled = True
             ok = cap == "min" and handled
             ctx.ob(rid, f"{fn.qual}: pattern {pat!r} reads the unit of '30min' as {cap!r}", (fn, c), ok,
                    "minutes are told from months, and the function has a case for 'min'" if ok else
